@@ -696,6 +696,16 @@ theorem inv4_step {st : State} (h : Inv st) (h4 : Inv4 st) (op : Op) (hf : fresh
   | handlerReturn k r => exact inv4_return h h4 k r
   | taskStep k => exact inv4_task h h4 k
   | unsubscribe c m x rid => exact inv4_unsubscribe h h4 c m x rid
+  | unsubscribeBad c rid =>
+    simp only [step, doUnsubscribeBad]
+    split
+    · exact h4
+    · rename_i cn hc
+      split
+      · exact h4
+      · split
+        · exact h4
+        · exact inv4_putConn h4 hc [.unsub rid false] (by simp) (by simp [Frame.owned])
   | connClose c =>
     simp only [step, doConnClose]
     split
@@ -956,6 +966,16 @@ theorem step_shape (st : State) (op : Op) : Shape st op (step st op).2 (step st 
             rw [hs]
             have hl : lookup st k = some (s, cn) := by simp [lookup, hs, hp.1.1.1, hc]
             exact .put hl ⟨rfl, rfl, rfl, rfl, fun _ => rfl, id, id, Or.inl rfl⟩ (connRel_push _ _)
+  | unsubscribeBad c rid =>
+    simp only [step, doUnsubscribeBad]
+    split
+    · exact .same
+    · rename_i cn hc
+      split
+      · exact .same
+      · split
+        · exact .same
+        · exact .putConn hc (connRel_push _ _)
   | connClose c =>
     simp only [step, doConnClose]
     split
